@@ -150,6 +150,54 @@ def check_tees_odd_headers(chk, tmp):
                 chk.violation(dict(sig, clause='bytes'), '%s: target holds %r, to* writes %r' % (what, b1[:300], b2[:300]), {'kind': 'tee-odd', 'name': name, 'cls': cls})
 
 
+def check_tees_sequences(chk, tmp):
+    """(a) a tee view that is peeked at first (header(), a partial pass) and THEN consumed: the target still holds what
+    to* writes; (b) templates with nested format specs; (c) errors= with characters the encoding cannot represent."""
+    import petl as etl
+    t = [[u'f1', u'f2', u'w', u'p']] + [[u'a\u20ac', 1.5, 8, 2], [u'b', 22.25, 6, 1], [u'c\xe9', 3.0, 7, 3]]
+    tmpl = u'{f1}|{f2:>{w}.{p}f}|{f2!r}\n'
+    pairs = [('tsv', lambda s: etl.teetsv(t, s, encoding='utf-8'), lambda s: etl.totsv(t, s, encoding='utf-8')),
+             ('csv dialect=excel-tab', lambda s: etl.teecsv(t, s, encoding='utf-8', dialect='excel-tab'), lambda s: etl.tocsv(t, s, encoding='utf-8', dialect='excel-tab')),
+             ('csv ; QUOTE_ALL', lambda s: etl.teecsv(t, s, encoding='utf-8', delimiter=';', quoting=1), lambda s: etl.tocsv(t, s, encoding='utf-8', delimiter=';', quoting=1)),
+             ('pickle protocol=2', lambda s: etl.teepickle(t, s, protocol=2), lambda s: etl.topickle(t, s, protocol=2)),
+             ('text nested format spec', lambda s: etl.teetext(t, s, encoding='utf-8', template=tmpl, prologue=u'P\n', epilogue=u'E\n'),
+              lambda s: etl.totext(t, s, encoding='utf-8', template=tmpl, prologue=u'P\n', epilogue=u'E\n')),
+             ('text errors=replace ascii', lambda s: etl.teetext(t, s, encoding='ascii', errors='replace', template=u'{f1} {f2}\n'),
+              lambda s: etl.totext(t, s, encoding='ascii', errors='replace', template=u'{f1} {f2}\n')),
+             ('csv errors=replace ascii', lambda s: etl.teecsv(t, s, encoding='ascii', errors='replace'), lambda s: etl.tocsv(t, s, encoding='ascii', errors='replace')),
+             ('html errors=xmlcharrefreplace ascii', lambda s: etl.teehtml(t, s, encoding='ascii', errors='xmlcharrefreplace', caption=u'c\u20ac'),
+              lambda s: etl.tohtml(t, s, encoding='ascii', errors='xmlcharrefreplace', caption=u'c\u20ac')),
+             ('html errors=ignore latin-1', lambda s: etl.teehtml(t, s, encoding='latin-1', errors='ignore'), lambda s: etl.tohtml(t, s, encoding='latin-1', errors='ignore'))]
+    for name, tee, to in pairs:
+        for plan in ('full', 'header() then full', 'partial pass then full', 'two full passes'):
+            t1, t2 = iolib.Target('path', tmp, 'tee'), iolib.Target('path', tmp, 'to')
+            chk.count(('tee-seq', name, plan))
+            chk.replayed += 1
+            try:
+                v = tee(t1.src)
+                if plan == 'header() then full':
+                    etl.header(v)
+                elif plan == 'partial pass then full':
+                    it = iter(v)
+                    next(it)
+                    next(it)
+                    del it
+                elif plan == 'two full passes':
+                    list(iter(v))
+                rows = [tuple(r) for r in v]
+                to(t2.src)
+                res = None
+                if rows != [tuple(r) for r in t]:
+                    res = 'the tee view delivered %r' % (rows,)
+                elif t1.raw() != t2.raw():
+                    res = 'target holds %r, to* writes %r' % (t1.raw()[:300], t2.raw()[:300])
+            except Exception as e:
+                res = 'raised %r' % (e,)
+            if res:
+                chk.violation({'op': 'tee' + name.split(' ')[0], 'kind': 'tee', 'source': 'path', 'clause': 'sequence'},
+                              'tee%s, %s: %s' % (name, plan, res), {'kind': 'tee-seq', 'name': name, 'plan': plan})
+
+
 def check_passthrough(chk):
     import petl as etl
     logging.getLogger('petl.util.timing').setLevel(logging.CRITICAL)
@@ -229,6 +277,7 @@ def run(tier, seed):
     with common.private_tmp() as tmp:
         check_tees(chk, tmp)
         check_tees_odd_headers(chk, tmp)
+        check_tees_sequences(chk, tmp)
     check_passthrough(chk)
     check_passthrough_large(chk)
     # V: tee traces through the recording source (same trace spec as C15)
